@@ -201,6 +201,11 @@ pub open spec fn cfi_version_ok(eh_frame: bool, version: u16) -> bool {
     if eh_frame { version == 1 } else { version == 1 || version == 3 || version == 4 }
 }
 
+/// length, CIE id, version
+pub open spec fn after_cie_start(w: WView, eh_frame: bool, e: Encoding) -> WView {
+    after(after(after_initial_length(w, e.format), cie_id_op(eh_frame, e.format)), b1(e.version as int))
+}
+
 impl CommonInformationEntry {
     /// an augmentation string is needed (.eh_frame data present)
     pub closed spec fn has_aug(&self) -> bool {
@@ -208,6 +213,7 @@ impl CommonInformationEntry {
     }
     /// the augmentation string: "z" then 'L' (LSDA encoding), 'P' (personality), 'R' (FDE pointer encoding), 'S' (signal frame),
     /// each only if present, then the terminating NUL; the letters' data follow in the SAME order in the augmentation data
+    #[verifier::opaque]
     pub closed spec fn after_aug_string(&self, w: WView) -> WView {
         let v0 = if self.has_aug() {
             let a = after(w, b1(0x7a));
@@ -224,15 +230,17 @@ impl CommonInformationEntry {
     }
     /// the view before the augmentation data: length, id, version, augmentation string, [address size, segment selector size
     /// (version 4)], code alignment factor (ULEB128), data alignment factor (SLEB128), return address register
+    #[verifier::opaque]
     pub closed spec fn after_fixed_header(&self, w: WView, eh_frame: bool) -> WView {
         let e = self.encoding;
-        let v1 = after(after(after_initial_length(w, e.format), cie_id_op(eh_frame, e.format)), b1(e.version as int));
+        let v1 = after_cie_start(w, eh_frame, e);
         let v2 = self.after_aug_string(v1);
         let v3 = if e.version >= 4 { after(after(v2, b1(e.address_size as int)), b1(0)) } else { v2 };
         after(after(after(v3, WOp::Uleb(self.code_alignment_factor as u64)), WOp::Sleb(self.data_alignment_factor as i64)), self.ra_op(eh_frame))
     }
     /// the augmentation data before its length is patched: a 1-byte length placeholder, then per letter: 'L' the LSDA pointer
     /// encoding byte, 'P' the personality encoding byte and the encoded personality pointer, 'R' the FDE pointer encoding byte
+    #[verifier::opaque]
     pub closed spec fn after_aug_data(&self, v: WView) -> WView {
         let a0 = after(v, b1(0));
         let a1 = match self.lsda_encoding { Some(e) => after(a0, b1(e.0 as int)), None => a0 };
@@ -249,6 +257,39 @@ impl CommonInformationEntry {
             let a = self.after_aug_data(v);
             after(a, WOp::PatchU { offset: v.len, val: (a.len - v.len - 1) as nat, size: 1 })
         } else { v }
+    }
+}
+
+impl CommonInformationEntry {
+    // every stage only appends fields (proved stage by stage so that no proof sees more than a handful of conditionals)
+    pub proof fn lemma_aug_string_grew(&self, w: WView)
+        ensures grew(w, self.after_aug_string(w))
+    {
+        reveal(CommonInformationEntry::after_aug_string);
+    }
+    pub proof fn lemma_fixed_header_grew(&self, w: WView, eh_frame: bool)
+        ensures grew(w, self.after_fixed_header(w, eh_frame))
+    {
+        reveal(CommonInformationEntry::after_fixed_header);
+        let v1 = after_cie_start(w, eh_frame, self.encoding);
+        assert(grew(w, v1));
+        self.lemma_aug_string_grew(v1);
+        let v2 = self.after_aug_string(v1);
+        assert(grew(w, v2));
+    }
+    pub proof fn lemma_aug_data_grew(&self, v: WView)
+        ensures grew(v, self.after_aug_data(v)), self.after_aug_data(v).len >= v.len + 1
+    {
+        reveal(CommonInformationEntry::after_aug_data);
+    }
+    pub proof fn lemma_header_grew(&self, w: WView, eh_frame: bool)
+        ensures grew(w, self.after_header(w, eh_frame))
+    {
+        self.lemma_fixed_header_grew(w, eh_frame);
+        let v = self.after_fixed_header(w, eh_frame);
+        self.lemma_aug_data_grew(v);
+        let a = self.after_aug_data(v);
+        assert(grew(w, a));
     }
 }
 
